@@ -82,6 +82,9 @@ func configsFor(c Case) []namedCfg {
 		{"default(nil)", Cfg{IndentSize: 2, MaxBlank: 1}, true},
 		{"compact", Cfg{IndentSize: 2, MaxBlank: 1, Compact: true}, false},
 		{"compact+strip", Cfg{IndentSize: 2, MaxBlank: 1, Compact: true, Strip: true}, false},
+		// the default layout with StripComments: "all formatter configurations"
+		// -- tree preservation and idempotence apply (the comment clause cannot)
+		{"strip", Cfg{IndentSize: 2, MaxBlank: 1, Strip: true}, false},
 	}
 	k := c.Cfg
 	if k.IndentSize == 2 && k.MaxBlank == 1 && k.RulesKind == 0 && !k.Strip && !k.Compact {
@@ -251,9 +254,7 @@ func oracle(c Case, ctx *vcommon.Ctx, known knownFn) *vcommon.Failure {
 		if err != nil {
 			fs.add(mode+"/idempotence-rejects", "[%s] Format rejects its own output %q (from %q): %v", nc.label, out, src, err)
 		} else if !bytes.Equal(again, out) && stripOnly {
-			// StripComments without Compact is not one of the modes the property
-			// names (default, compact, compact+strip): observation only
-			ctx.Class("observation:strip-only-not-idempotent")
+			fs.add("strip/idempotence"+idemClass(in, o), "[%s] Format(Format(x)) != Format(x)\n source %q\n pass 1 %q\n pass 2 %q", nc.label, src, out, again)
 		} else if !bytes.Equal(again, out) {
 			fs.add(mode+"/idempotence"+idemClass(in, o), "[%s] Format(Format(x)) != Format(x)\n source %q\n pass 1 %q\n pass 2 %q", nc.label, src, out, again)
 		}
@@ -551,6 +552,7 @@ func TestCheck(t *testing.T) {
 		vcommon.S("layout", 32000, 1600000, genLayoutCase(), checkCase),
 		vcommon.S("snippets", 12000, 500000, genSnippetCase(), checkCase),
 		vcommon.E("bigtoken", enumBig, checkBig),
+		vcommon.E("deepnest", enumDeep, checkDeep),
 		vcommon.S("soup", 12000, 500000, genSoupCase(), checkCase),
 	)
 }
